@@ -191,7 +191,7 @@ def check_windows(case, spec, r, ck):
     return flowed
 
 
-def check_takes(case, spec, r, ck):
+def check_takes(case, spec, r, ck, clause='take.prorated_rhs'):
     """(c) take rows of each contract (asset-level sub-problem rows) carry the prorated right-hand side."""
     any_partial = False
     for pev, kids in flow.top_setups(r.rec)[:1]:
@@ -221,7 +221,7 @@ def check_takes(case, spec, r, ck):
                 continue
             got = [] if kd.snap.b is None else list(kd.snap.b)
             ok = len(got) == len(want) and all(abs(x - y) <= 1e-9 * (1 + abs(y)) for x, y in zip(got, want))
-            case.check('take.prorated_rhs', ok, nonvacuous=bool(want), asset=a['name'], cls=a['type'], got=got[:4], want=want[:4])
+            case.check(clause, ok, nonvacuous=bool(want), asset=a['name'], cls=a['type'], got=got[:4], want=want[:4])
     return any_partial
 
 
